@@ -12,7 +12,7 @@ Extraction "../extract/model.ml"
   get_marker_versions K1_class
   blake3 whatsapp experimental azks_new batch_insert hashval node_value root_hash
   get_membership_proof get_non_membership_proof verify_membership verify_nonmembership_gen verify_nonmembership
-  init_state begin_transaction commit_transaction rollback_transaction set_record batch_set get_record batch_get
+  init_state begin_transaction commit_transaction rollback_transaction set_record batch_set get_record get_committed batch_get
   get_user_state get_user_data get_user_state_versions tombstone flush evict
   dir_new publish Directory.lookup key_history audit lookup_verify key_history_verify audit_verify_gen spec_root_hash rebuild_root verify_consecutive d_tombstone
   commit_shape of_list overlay view determine root_hash_at Sched.run Sched.results
